@@ -11,9 +11,12 @@ import (
 	"math/rand"
 	"os"
 	"runtime"
+	"runtime/debug"
 	"sort"
 	"strings"
+	"syscall"
 	"time"
+	"unsafe"
 
 	"github.com/bytedance/sonic"
 	"github.com/bytedance/sonic/ast"
@@ -23,6 +26,78 @@ import (
 	"verifharness/tlaval"
 	"verifharness/workpool"
 )
+
+// Placement of the input bytes in memory (property C05): the result must not depend on it.
+//   heap  : a private allocation of exactly the input's length
+//   guard : the input ends exactly at a PROT_NONE page (a read past the end faults)
+//   adv   : the input is followed in memory by an adversarial continuation (bytes that would
+//           complete or extend the last token)
+var lexPlace = os.Getenv("VERIF_PLACE")
+
+// a ring of regions per worker, each [data pages][PROT_NONE page]: a placed input stays valid until
+// eight further inputs have been placed
+var guardRing [8][]byte
+var guardNext int
+var guardEnd int
+
+func placeGuard(b []byte) []byte {
+	guardNext = (guardNext + 1) % len(guardRing)
+	guardRegion := guardRing[guardNext]
+	if guardRegion == nil {
+		ps := syscall.Getpagesize()
+		pages := 64
+		mem, err := syscall.Mmap(-1, 0, (pages+1)*ps, syscall.PROT_READ|syscall.PROT_WRITE, syscall.MAP_ANON|syscall.MAP_PRIVATE)
+		if err != nil {
+			panic(err)
+		}
+		if err := syscall.Mprotect(mem[pages*ps:], syscall.PROT_NONE); err != nil {
+			panic(err)
+		}
+		guardRegion, guardEnd = mem, pages*ps
+		guardRing[guardNext] = mem
+	}
+	if len(b) > guardEnd {
+		return append([]byte(nil), b...)
+	}
+	dst := guardRegion[guardEnd-len(b) : guardEnd : guardEnd]
+	copy(dst, b)
+	return dst
+}
+
+var advConts = []string{`"`, `]`, `}`, `ull`, `rue`, `alse`, `1`, `e5`, `.5`, `\\"`, `,3]`, `:1}`, `"x"`, ` `, `0000`, "\x00", `u0041"`, `\\`}
+
+func placeAdv(b []byte, k int) []byte {
+	cont := advConts[k%len(advConts)]
+	big := make([]byte, 0, len(b)+len(cont)+64)
+	big = append(big, b...)
+	big = append(big, cont...)
+	for len(big) < cap(big) {
+		big = append(big, cont[len(big)%len(cont)])
+	}
+	return big[:len(b):len(b)] // the slice header says len(b); the memory behind it continues
+}
+
+func placeInput(b []byte, k int) []byte {
+	switch lexPlace {
+	case "guard":
+		return placeGuard(b)
+	case "adv":
+		return placeAdv(b, k)
+	}
+	// heap: an exact-length view of a private allocation that is followed by zero bytes (deterministic:
+	// what follows an object on the Go heap is otherwise up to the allocator)
+	buf := make([]byte, len(b), len(b)+16)
+	copy(buf, b)
+	return buf[:len(b):len(b)]
+}
+
+// strOf gives the string view of placed bytes without copying (string APIs must see the same placement)
+func strOf(b []byte) string {
+	if len(b) == 0 {
+		return ""
+	}
+	return unsafe.String(&b[0], len(b))
+}
 
 type lexCase struct {
 	ID     int               `json:"id"`
@@ -48,6 +123,7 @@ type lexBad struct {
 }
 
 type lexRes struct {
+	Tag     string         `json:"tag,omitempty"` // concrete class of the case, for known-finding predicates on digests
 	DG      uint64         `json:"dg"`
 	Log     []string       `json:"log,omitempty"`
 	ID      int            `json:"id"`
@@ -88,7 +164,7 @@ func errDetail(err error) string {
 
 var lexAPIs = []lexAPI{
 	{"Valid", false, func(b []byte) (bool, string) { return sonic.Valid(b), "" }},
-	{"ValidString", false, func(b []byte) (bool, string) { return sonic.ValidString(string(b)), "" }},
+	{"ValidString", false, func(b []byte) (bool, string) { return sonic.ValidString(strOf(b)), "" }},
 	{"ConfigStd.Valid", false, func(b []byte) (bool, string) { return sonic.ConfigStd.Valid(b), "" }},
 	{"Unmarshal.iface", true, func(b []byte) (bool, string) {
 		var v interface{}
@@ -102,7 +178,7 @@ var lexAPIs = []lexAPI{
 	}},
 	{"UnmarshalString.iface", true, func(b []byte) (bool, string) {
 		var v interface{}
-		err := sonic.UnmarshalString(string(b), &v)
+		err := sonic.UnmarshalString(strOf(b), &v)
 		return err == nil, errDetail(err)
 	}},
 	{"Unmarshal.RawMessage", false, func(b []byte) (bool, string) {
@@ -126,7 +202,7 @@ var lexAPIs = []lexAPI{
 		return true, ""
 	}},
 	{"GetFromString", false, func(b []byte) (bool, string) {
-		n, err := sonic.GetFromString(string(b))
+		n, err := sonic.GetFromString(strOf(b))
 		if err != nil {
 			return false, errDetail(err)
 		}
@@ -136,12 +212,12 @@ var lexAPIs = []lexAPI{
 		return true, ""
 	}},
 	{"NewRaw.Check", false, func(b []byte) (bool, string) {
-		n := ast.NewRaw(string(b))
+		n := ast.NewRaw(strOf(b))
 		err := n.Check()
 		return err == nil, errDetail(err)
 	}},
 	{"NewSearcher.GetByPath", false, func(b []byte) (bool, string) {
-		s := ast.NewSearcher(string(b))
+		s := ast.NewSearcher(strOf(b))
 		n, err := s.GetByPath()
 		if err != nil {
 			return false, errDetail(err)
@@ -178,7 +254,7 @@ var lexAPIs = []lexAPI{
 		return true, ""
 	}},
 	{"Decoder.Decode.iface", true, func(b []byte) (bool, string) {
-		d := decoder.NewDecoder(string(b))
+		d := decoder.NewDecoder(strOf(b))
 		var v interface{}
 		err := d.Decode(&v)
 		if err != nil {
@@ -241,6 +317,7 @@ func lexHandle(in []byte) []byte {
 	}
 	res := lexRes{ID: c.ID, PerAPI: map[string]int{}}
 	od := obsBegin()
+	debug.SetPanicOnFault(true) // a read past a guard page becomes a recoverable panic, attributed to the API that did it
 	if c.V == "deep" {
 		res.Skipped++
 		out, _ := json.Marshal(res)
@@ -261,6 +338,11 @@ func lexHandle(in []byte) []byte {
 		}
 		seen[string(b)] = true
 		// reference oracle: encoding/json.Valid must agree with the specification's strict verdict
+		if cs := concreteSig(c.Sig, b); cs["short_literal_at_end"] == "yes" {
+			res.Tag = "short_literal_at_end"
+		} else if cs["leading_zero_at_end"] == "yes" && res.Tag == "" {
+			res.Tag = "leading_zero_at_end"
+		}
 		std := json.Valid(b)
 		if (c.V == "accept") != std {
 			res.Skipped++
@@ -269,14 +351,16 @@ func lexHandle(in []byte) []byte {
 			continue
 		}
 		for _, a := range apis {
-			// copy so that every API sees a private buffer of exact length
-			bb := append(make([]byte, 0, len(b)), b...)
+			// every API sees a private buffer of exact length, placed as the environment says
+			bb := placeInput(b, k+len(res.PerAPI))
 			acc, det, pan := callLex(a, bb)
 			obsAdd(a.name, acc, det, pan)
 			res.Evals++
 			res.PerAPI[a.name]++
 			kind := ""
 			switch {
+			case pan && strings.Contains(det, "invalid memory address"):
+				kind = "fault" // the API touched memory outside the input (guard page)
 			case pan:
 				kind = "panic"
 			case c.V == "accept" && !acc:
@@ -305,6 +389,50 @@ func concreteSig(sig map[string]string, b []byte) map[string]string {
 	out := map[string]string{}
 	for k, v := range sig {
 		out[k] = v
+	}
+	// a literal (true / false / null) that begins so close to the end of the input that its full length
+	// would not fit: the native literal matcher loads four bytes at once
+	{
+		in, esc := false, false
+		for i, ch := range b {
+			switch {
+			case !in && ch == '"':
+				in = true
+			case in && esc:
+				esc = false
+			case in && ch == '\\':
+				esc = true
+			case in && ch == '"':
+				in = false
+			case !in && ((ch == 't' || ch == 'n') && i+4 > len(b) || ch == 'f' && i+5 > len(b)):
+				out["short_literal_at_end"] = "yes"
+			}
+		}
+	}
+	// the digit 0 as the first digit of a number at the very end of the input: the native number scanner
+	// looks at the byte after a leading zero without checking that there is one
+	if n := len(b); n > 0 && b[n-1] == '0' {
+		k := n - 1
+		for k > 0 && b[k-1] >= '0' && b[k-1] <= '9' {
+			k--
+		}
+		inStr := false
+		esc := false
+		for _, ch := range b[:n-1] {
+			switch {
+			case !inStr && ch == '"':
+				inStr = true
+			case inStr && esc:
+				esc = false
+			case inStr && ch == '\\':
+				esc = true
+			case inStr && ch == '"':
+				inStr = false
+			}
+		}
+		if !inStr && (k == n-1 || b[k] == '0') {
+			out["leading_zero_at_end"] = "yes"
+		}
 	}
 	if sig["st"] == "run" && (sig["lx"] == "str" || sig["lx"] == "esc" || strings.HasPrefix(sig["lx"], "u")) {
 		// find the opening quote of the unterminated literal: scan forward tracking string state
@@ -430,6 +558,11 @@ func lexMain(args []string) int {
 			json.Unmarshal(cl, &c)
 			sum.Cases++
 			dgs.add(r.ID, r.DG)
+			if r.Tag != "" {
+				dgs.addTag(r.ID, r.Tag)
+			} else {
+				dgs.addTag(r.ID, "end="+c.Sig["st"]+"/"+c.Sig["lx"])
+			}
 			sum.ByVerdict[c.V]++
 			sum.Evals += r.Evals
 			sum.Skipped += r.Skipped
